@@ -43,6 +43,11 @@ def layouts(tier):
                              ('S3', [M('geт', 'S3.homoglyph'), M('Get', 'S3.Get')])]))
     L.append(('custom-names', [('S1', [M('f1', 'S1.f1', _operation_name='get'), M('f2', 'S1.f2', _in_message_name='Get')]),
                                ('S2', [M('get_', 'S2.get_'), M('getx', 'S2.getx'), M('f1x', 'S2.f1x', _operation_name='f1')])]))
+    # auxiliary services: methods that answer to the name of a primary method and run after it
+    L.append(('aux', [('S1', [M('get', 'S1.get'), M('getx', 'S1.getx')]), ('A1', [M('get', 'A1.get'), M('Get', 'A1.Get')], 'aux'),
+                      ('S2', [M('Get', 'S2.Get'), M('ge', 'S2.ge')])]))
+    L.append(('two-aux', [('A1', [M('get', 'A1.get')], 'aux'), ('S1', [M('get', 'S1.get'), M('get_', 'S1.get_')]),
+                          ('A2', [M('get', 'A2.get'), M('get_', 'A2.get_')], 'aux')]))
     if tier == 'thorough':
         L.append(('four', [('S1', [M('get', 'S1.get'), M('ge', 'S1.ge')]), ('S2', [M('Get', 'S2.Get'), M('getx', 'S2.getx')]),
                            ('S3', [M('GET', 'S3.GET'), M('_get', 'S3._get')]), ('S4', [M('get_', 'S4.get_'), M('get.x', 'S4.get.x')])]))
@@ -55,6 +60,12 @@ def collisions():
     C.append(('same-name-two-services', [('S1', [M('get', 'S1.get')]), ('S2', [M('get', 'S2.get')])]))
     C.append(('operation-name-vs-name', [('S1', [M('f1', 'S1.f1', _operation_name='get')]), ('S2', [M('get', 'S2.get')])]))
     C.append(('in-message-name-vs-name', [('S1', [M('f1', 'S1.f1', _in_message_name='get')]), ('S2', [M('get', 'S2.get')])]))
+    # a second primary method behind an auxiliary one: wrapper messages in another namespace / custom operation name so
+    # that nothing but the routing table can notice the clash
+    C.append(('primary-aux-primary', [('S1', [M('get', 'S1.get')]), ('A1', [M('get', 'A1.get')], 'aux'),
+                                      ('S2', [M('get', 'S2.get', _in_message_name='{urn:vf:beta}get', _out_message_name='{urn:vf:beta}getResponse')])]))
+    C.append(('primary-aux-aux-primary', [('S1', [M('get', 'S1.get')]), ('A1', [M('get', 'A1.get')], 'aux'), ('A2', [M('get', 'A2.get')], 'aux'),
+                                          ('S2', [M('get', 'S2.get', _in_message_name='{urn:vf:beta}get', _out_message_name='{urn:vf:beta}getResponse')])]))
     C.append(('two-operation-names', [('S1', [M('f1', 'S1.f1', _operation_name='op')]), ('S2', [M('f2', 'S2.f2', _operation_name='op')])]))
     return C
 
@@ -65,7 +76,7 @@ def public_name(m):
 
 
 def program_of(services):
-    return {'tns': TNS, 'classes': [], 'services': [{'n': sn, 'methods': ms} for sn, ms in services]}
+    return {'tns': TNS, 'classes': [], 'services': [{'n': s[0], 'methods': s[1], 'aux': len(s) > 2} for s in services]}
 
 
 def near_misses(name, registered):
@@ -194,11 +205,18 @@ def run_shard(shard, only=None):
         return res
     lid, services = layouts(tier)[shard['li']]
     channel = shard['channel']
-    registered = {}
-    for sn, ms in services:
-        for m in ms:
-            registered[public_name(m)] = m['key']
-    names = [(n, k) for n, k in registered.items()]
+    registered, auxes = {}, {}
+    for sv in services:
+        for m in sv[1]:
+            if len(sv) > 2:
+                auxes.setdefault(public_name(m), []).append(m['key'])
+            else:
+                registered[public_name(m)] = m['key']
+    for n in list(auxes):
+        if n not in registered:      # an auxiliary method without a primary one: not exercised
+            registered[n] = None
+    names = [(n, k) for n, k in registered.items() if k is not None]
+    registered = dict(registered)
     misses = sorted(set(x for n in registered for x in near_misses(n, registered)))
     targets = {}
     for perm in itertools.permutations(range(len(services))):
@@ -242,17 +260,18 @@ def run_shard(shard, only=None):
                     continue
                 res['nontrivial'] += 1
                 if want is not None:
-                    if calls != [want]:
-                        V('wrong-function', 'registered:%s' % name, 'expected exactly [%s] to run, ran %s' % (want, calls))
+                    if calls[:1] != [want] or sorted(calls[1:]) != sorted(auxes.get(name, [])):
+                        V('wrong-function', 'registered:%s' % name, 'expected exactly [%s] then auxiliary %s to run, ran %s' % (
+                            want, sorted(auxes.get(name, [])), calls))
                         res['outcomes']['wrong'] = res['outcomes'].get('wrong', 0) + 1
                         continue
-                    prev = targets.setdefault((variant, name), calls)
-                    if prev != calls:
+                    prev = targets.setdefault((variant, name), sorted(calls))
+                    if prev != sorted(calls):
                         V('permutation-dependent', name, 'ran %s, under another service order %s' % (calls, prev))
                     res['outcomes']['dispatched'] = res['outcomes'].get('dispatched', 0) + 1
                 else:
                     kind_ = 'near-miss' if variant == 'qualified' else variant
-                    if lenient is not None and calls == [lenient]:
+                    if lenient is not None and calls[:1] == [lenient] and sorted(calls[1:]) == sorted(auxes.get(name, [])):
                         res['outcomes']['unqualified-defaults-to-tns'] = res['outcomes'].get('unqualified-defaults-to-tns', 0) + 1
                         continue
                     if calls:
